@@ -12,6 +12,7 @@ ID = "C11"
 RULE = (
     "texts: every prefix (quick: every prefix of the small bundled grammars, stride for the large ones; "
     "thorough: every prefix of all 15) of the bundled grammars and of generated grammars in free layout; "
+    "1,280 (quick) / 40,000 (thorough) whole generated grammars of the optimizer-bait and full profiles; "
     "single-character insert/delete/replace mutations of them; token soups over the grammar vocabulary; "
     "empty, blank and comment-only texts; texts ending inside a string, escape, comment, tag, PEEK[, "
     "repetition braces or rule; Hypothesis st.text() over all of Unicode (NUL, lone surrogates, astral); "
@@ -32,8 +33,8 @@ ASSUMPTIONS = [
     "wall-clock time is never an oracle: worker time-outs are isolated, counted and not reported",
 ]
 SIZES = {
-    "quick": {"soups": 250, "texts": 150, "gen": 12, "mut": 2, "stride_big": 23},
-    "thorough": {"soups": 8000, "texts": 5000, "gen": 200, "mut": 40, "stride_big": 1},
+    "quick": {"soups": 250, "texts": 150, "gen": 12, "mut": 2, "stride_big": 23, "whole": 80},
+    "thorough": {"soups": 8000, "texts": 5000, "gen": 200, "mut": 40, "stride_big": 1, "whole": 2500},
 }
 _POS = re.compile(r"-> (-?\d+):(-?\d+)")
 
@@ -285,11 +286,11 @@ def shards(tier: str):
     return [{"idx": i} for i in range(16)]
 
 
-def free_grammar_text(rng):
+def free_grammar_text(rng, profile="full"):
     from pestverif import ggen
     from pestverif.gfree import print_free
 
-    rules = ggen.Gen(rng, ggen.PROFILES["full"], max_rules=4, max_depth=3).grammar()
+    rules = ggen.Gen(rng, ggen.PROFILES[profile], max_rules=4, max_depth=3).grammar()
     return print_free(rng, rules)
 
 
@@ -343,6 +344,12 @@ def run_shard(ctx: Ctx, spec):
             run_texts(ctx, modes, [mutate_text(rng, g) for _ in range(30)], "generated-mutation")
             if len(ctx.samples) < 3:
                 ctx.sample({"kind": "generated grammar, every prefix + 30 mutations", "text": g[:200]})
+
+        # 2b. whole generated grammars (optimizer-bait and full profiles): what the optimizer passes see at load time
+        whole = []
+        for k in range(size["whole"]):
+            whole.append(free_grammar_text(rng, "bait" if k % 2 else "full"))
+        run_texts(ctx, modes, whole, "generated-whole")
 
         # 3. hand-picked endings (every prefix of each as well)
         if idx == 0:
